@@ -15,7 +15,7 @@ import CasbinVerif.Properties.C06
 namespace Casbin.C05
 
 theorem init_wf (md : ModelDef) (hp : (md.p.map (·.1)).Nodup) (hg : (md.g.map (·.1)).Nodup)
-    (hc : ∀ x ∈ md.g, 2 ≤ x.2.1) : (Enf.init md).WFState := by
+    (hc : ∀ x ∈ md.g, 2 ≤ x.2.1 ∧ x.2.1 ≤ 3 ∧ (x.2.2 = .plain → x.2.1 = 2)) : (Enf.init md).WFState := by
   sorry
 
 theorem init_mirror (md : ModelDef) (hg : (md.g.map (·.1)).Nodup) : (Enf.init md).LinksMirror := by
